@@ -60,29 +60,29 @@ func c21SyncOpGen() *rapid.Generator[op] {
 func c21PostOpGen() *rapid.Generator[op] {
 	return rapid.Custom(func(rt *rapid.T) op {
 		switch k := rapid.IntRange(0, 99).Draw(rt, "kind"); {
-		case k < 20:
+		case k < 18:
 			return op{K: "pv", A: recencyGen.Draw(rt, "parent")}
-		case k < 27:
+		case k < 24:
 			return op{K: "pv", A: recencyGen.Draw(rt, "parent"), Inv: true}
-		case k < 35:
+		case k < 31:
 			return op{K: "build", A: rapid.SampledFrom([]int{0, 0, 1}).Draw(rt, "ctx")}
-		case k < 45:
+		case k < 40:
 			return op{K: "pref", A: recencyGen.Draw(rt, "pref")}
-		case k < 57:
+		case k < 51:
 			return op{K: "accP", A: rapid.SampledFrom([]int{0, 1, 1, 2}).Draw(rt, "n")}
-		case k < 67:
+		case k < 60:
 			return op{K: "accB", A: recencyGen.Draw(rt, "branch"), B: rapid.SampledFrom([]int{0, 1, 1, 2}).Draw(rt, "n")}
-		case k < 72:
+		case k < 64:
 			return op{K: "pk", A: rapid.IntRange(0, 12).Draw(rt, "known")}
-		case k < 80:
+		case k < 78:
 			return op{K: "accInv", A: recencyGen.Draw(rt, "which")}
-		case k < 85:
+		case k < 83:
 			return op{K: "finish2", A: rapid.IntRange(0, 1).Draw(rt, "same")}
-		case k < 91:
+		case k < 90:
 			return op{K: "sweepacc"}
-		case k < 94:
+		case k < 93:
 			return op{K: "hold"}
-		case k < 97:
+		case k < 96:
 			return op{K: "release"}
 		default:
 			return op{K: "drain"}
@@ -100,7 +100,7 @@ func c21Gen(rt *rapid.T) c21Case {
 	}
 	ns := rapid.SampledFrom([]int{0, 1, 2, 4, 6, 8, 12, 16, 20}).Draw(rt, "nsync")
 	c.Sync = rapid.SliceOfN(c21SyncOpGen(), ns, ns).Draw(rt, "sync")
-	if rapid.IntRange(0, 2).Draw(rt, "race") == 0 {
+	if rapid.IntRange(0, 4).Draw(rt, "race") < 2 {
 		// the engine's last action before the syncer finishes is an accept (of one block) whose
 		// sibling rejections are still owed
 		c.RaceAt = rapid.IntRange(1, 4).Draw(rt, "raceAt")
